@@ -588,6 +588,43 @@ def canon_group(args):
             out.append({'kind': 'canon', 'variants': variants, 'descr': descr,
                         'meta': {'seed': seed, 'idx': idx, 'hashes': hashes, 'wm': wm, 'fmt': fmt,
                                  'group': group, 'inject': inject, 'texts': texts}})
+        # group C: a SUB-DIRECTORY update with sorting; the top-level Manifest, rewritten for the chain, holds two
+        # entries of one tag, path and size with different checksums for a path OUTSIDE the updated directory
+        # (nothing de-duplicates those), in either order: the sorted text must not depend on that order
+        subdirs = [d for d in L.dirs[1:] if os.path.isdir(os.path.join(src, d)) and '/' not in d
+                   and not d.startswith('.') and not os.path.islink(os.path.join(src, d))
+                   and os.path.isfile(os.path.join(src, 'Manifest'))]
+        if subdirs and inject is None:
+            d = rng.choice(subdirs)
+            variants, descr, texts = [], [], []
+            dup = ['DATA zz-outside/x 1 SHA1 ' + 'aa' * 20, 'DATA zz-outside/x 1 SHA1 ' + 'bb' * 20]
+            for v in (0, 1):
+                dst = os.path.join(base, 'vC%d' % v)
+                shutil.copytree(src, dst, symlinks=True)
+                with open(os.path.join(dst, 'Manifest'), 'rb') as f:
+                    old = f.read().decode('utf8').splitlines()
+                lines = old + (dup if v == 0 else dup[::-1])
+                with open(os.path.join(dst, 'Manifest'), 'wb') as f:
+                    f.write(('\n'.join(lines) + '\n').encode('utf8'))
+                with open(os.path.join(dst, d, 'canon-new-file'), 'wb') as f:
+                    f.write(b'new in the updated directory')
+                pre = raw_snapshot(dst)
+                obs, ld = gem.call(gem.loader, os.path.join(dst, 'Manifest'), hashes=list(hashes), sort=True)
+                if obs['end'] == 'ok':
+                    obs, _ = gem.call(ld.update_entries_for_directory, d)
+                if obs['end'] == 'ok':
+                    obs, _ = gem.call(ld.save_manifests)
+                post = raw_snapshot(dst)
+                if obs['end'] == 'ok':
+                    variants.append([[p, dg, 'W' if pre.get(p) != post.get(p) else '-']
+                                     for p, dg in manifest_bytes_map(dst) if p == 'Manifest'])
+                else:
+                    variants.append([['<failed>', obs['end'] + obs['exc'], 'W']])
+                texts.append({})
+                descr.append('duplicates outside the updated directory, order %d' % v)
+            out.append({'kind': 'canon', 'variants': variants, 'descr': descr,
+                        'meta': {'seed': seed, 'idx': idx, 'hashes': hashes, 'wm': None, 'fmt': None,
+                                 'group': 'C', 'inject': None, 'texts': texts, 'sub': d}})
         return out
     finally:
         shutil.rmtree(base, ignore_errors=True)
